@@ -161,7 +161,7 @@ func DriverMain(prop, tier, verifDir string) int {
 				defer wg.Done()
 				sem <- struct{}{}
 				defer func() { <-sem }()
-				tag := fmt.Sprintf("%s-%d", strings.ReplaceAll(gd, "=", ""), s)
+				tag := fmt.Sprintf("%s-%d", strings.ReplaceAll(strings.ReplaceAll(gd, "=", ""), " ", "_"), s)
 				out := filepath.Join(runDir, "res-"+tag+".json")
 				slot := filepath.Join(runDir, "slot-"+tag)
 				var skip []int64
@@ -363,7 +363,10 @@ func runProc(bin string, args []string, godebug, errFile string, limit time.Dura
 			env = append(env, kv)
 		}
 	}
-	env = append(env, "GODEBUG="+godebug)
+	// godebug may carry extra environment assignments after the GODEBUG value
+	gdf := strings.Fields(godebug)
+	env = append(env, "GODEBUG="+gdf[0], "GORACE=halt_on_error=1 exitcode=66")
+	env = append(env, gdf[1:]...)
 	if runDirEnv != "" {
 		env = append(env, "VERIF_RUNDIR="+runDirEnv)
 	}
@@ -437,6 +440,26 @@ func tailFile(path string, n int) string {
 func attribute(bin, prop, tier string, seed int64, gd, runDir, tag string, attempt int, entries []SlotEntry, rc int, tail string) (*Violation, int64) {
 	if len(entries) == 0 {
 		return nil, -1
+	}
+	if strings.Contains(tail, "WARNING: DATA RACE") {
+		// a race report is evidence on its own (it need not reproduce in a solo run);
+		// identity = the go.sh functions on the two stacks, line numbers stripped
+		var fns []string
+		for _, ln := range strings.Split(tail, "\n") {
+			ln = strings.TrimSpace(ln)
+			if strings.HasPrefix(ln, "github.com/hattya/go.sh/") {
+				if i := strings.IndexByte(ln, '('); i > 0 {
+					ln = ln[:i]
+				}
+				if len(fns) < 6 && (len(fns) == 0 || fns[len(fns)-1] != ln) {
+					fns = append(fns, ln)
+				}
+			}
+		}
+		en := entries[0]
+		return &Violation{Property: prop, Key: "data-race:" + strings.Join(fns, "|"), Class: "data-race", Case: en.Raw,
+			Expected: "no data race", Observed: "WARNING: DATA RACE (" + strings.Join(fns, " / ") + ")", Detail: tail,
+			GoDebug: gd, Tier: tier, Seed: seed}, en.Idx
 	}
 	for pass := 0; pass < 2; pass++ {
 		wd := "15s"
